@@ -35,11 +35,20 @@ RECURSIVE BuildStmt(_), ApplyAll(_, _, _), ApplySelect(_, _), ApplyInsert(_, _),
 OrderRec(c) == [e |-> c.e, o |-> c.o, nulls |-> Get(c, "nulls", "none")]
 BuildTableRef(c) == c
 
+\* CommonTableExpression::from_select: the name is cte_<first FROM table>, the column list the names of the
+\* select items (alias, or column name, qualified ones joined with "_") when every item has one
+FromSelect(c) == Has(c, "from_select") /\ c.from_select
+CteNameOf(q) == IF Len(q.from) > 0 /\ q.from[1].k = "table" THEN "cte_" \o q.from[1].t[Len(q.from[1].t)]
+                ELSE IF Len(q.from) > 0 /\ q.from[1].k = "alias" THEN "cte_" \o q.from[1].a ELSE "?"
+ItemName(x) == IF x.a # "" THEN x.a
+               ELSE IF x.e.k = "col" /\ x.e.n # "*" THEN JoinStrs(Get(x.e, "q", <<>>) \o <<x.e.n>>, "_") ELSE ""
+CteColsOf(q) == IF \E i \in DOMAIN q.selects : ItemName(q.selects[i]) = "" THEN <<>> ELSE [i \in DOMAIN q.selects |-> ItemName(q.selects[i])]
 BuildWith(w) ==
   [k |-> "with", recursive |-> Get(w, "recursive", FALSE),
    search |-> IF Has(w, "search") THEN Some(w.search) ELSE NoneV,      \* [order, e, set]
    cycle |-> IF Has(w, "cycle") THEN Some(w.cycle) ELSE NoneV,         \* [e, set, using]
-   ctes |-> [i \in DOMAIN w.ctes |-> [name |-> w.ctes[i].name, cols |-> Get(w.ctes[i], "cols", <<>>),
+   ctes |-> [i \in DOMAIN w.ctes |-> [name |-> IF FromSelect(w.ctes[i]) THEN CteNameOf(BuildStmt(w.ctes[i].q)) ELSE w.ctes[i].name,
+                                      cols |-> IF FromSelect(w.ctes[i]) THEN CteColsOf(BuildStmt(w.ctes[i].q)) ELSE Get(w.ctes[i], "cols", <<>>),
                                       mat |-> IF Has(w.ctes[i], "mat") THEN (IF w.ctes[i].mat THEN "yes" ELSE "no") ELSE "none", q |-> BuildStmt(w.ctes[i].q)]]]
 
 ApplySelect(s, c) ==
